@@ -130,3 +130,55 @@ Definition on_poll (code : Z) (polled attempts : Z) : action :=
   else if code =? POLL_FAILED then ARetry
   else if (code =? POLL_WAITING) || (code =? POLL_PASSED) then ARelease
   else AKeepPolling.
+
+(* ---- which files a scan hands to the sender (C17) ------------------------------
+   store/local.go handleNode + shouldIgnore, client.go includeScannedFile.
+   Pattern matching is regexp (library): its verdicts are inputs. *)
+Record finfo := mkfinfo {
+  fi_size : Z;
+  fi_age : Z;              (* scan start - mtime *)
+  fi_hidden : bool;        (* the base name starts with '.' *)
+  fi_dir_skipped : bool;   (* an ancestor directory is hidden (and hidden files are off) or matches an ignore pattern *)
+  fi_ignored : bool;       (* an ignore pattern (incl. the standard .lck / .disabled ones, or a non-HTTP tag pattern) matches *)
+  fi_included : bool;      (* some include pattern matches *)
+  fi_cached : option (Z * Z)  (* (size, mtime) of the cache entry of that name *)
+}.
+
+Definition scan_returns (disabled include_hidden has_include : bool) (min_age mtime : Z) (f : finfo) : bool :=
+  negb disabled &&
+  negb (fi_dir_skipped f) &&
+  negb (negb include_hidden && fi_hidden f) &&
+  negb (fi_ignored f) &&
+  (negb has_include || fi_included f) &&
+  (min_age <=? fi_age f) &&
+  (* includeScannedFile *)
+  negb (fi_size f =? 0) &&
+  match fi_cached f with
+  | None => true
+  | Some (csize, ctime) => negb (csize =? fi_size f) || negb (ctime =? mtime)
+  end.
+
+(* ---- the restart plan (C07): what recover() does with one cached file ------------ *)
+Inductive plan :=
+| PSkip                         (* done before, ignored now, changed (the scanner owns it), no hash yet *)
+| PMarkDone                     (* the source file vanished *)
+| PSendRanges (rs : list (Z * Z))  (* partly received: send exactly the missing ranges, keeping the announced predecessor *)
+| PPoll.                        (* fully sent or not at all: ask the receiver *)
+
+Definition recover_decide (done ignored vanished changed has_hash : bool)
+                          (missing : option (list (Z * Z))) : plan :=
+  if done then PSkip
+  else if ignored then PSkip
+  else if vanished then PMarkDone
+  else if changed then PSkip
+  else if negb has_hash then PSkip
+  else match missing with
+       | Some (r :: rs) => PSendRanges (r :: rs)
+       | _ => PPoll
+       end.
+
+Inductive after_poll := QSendWhole | QFinishAndPlaceholder | QNothing.
+Definition recover_after_poll (code : Z) : after_poll :=
+  if (code =? POLL_NONE) || (code =? POLL_FAILED) then QSendWhole
+  else if (code =? POLL_WAITING) || (code =? POLL_PASSED) then QFinishAndPlaceholder
+  else QNothing.
